@@ -522,6 +522,8 @@ impl Check {
             self.replay_ran = true;
             let mut ctx = CaseCtx::default();
             let r = guarded(|| oracle(&case, &mut ctx));
+            let sigs: Vec<String> = self.known.iter().map(|k| k.signature.clone()).collect();
+            let r = promote_unlisted(r, &ctx, &sigs);
             self.absorb_known(&ctx.known);
             self.stages.get_mut(name).unwrap().evaluations += 1;
             match r {
@@ -627,6 +629,8 @@ impl Check {
             }
             let mut ctx = CaseCtx::default();
             let r = guarded(|| oracle(&case, &mut ctx));
+            let sigs: Vec<String> = self.known.iter().map(|k| k.signature.clone()).collect();
+            let r = promote_unlisted(r, &ctx, &sigs);
             self.absorb_known(&ctx.known);
             let st = self.stages.get_mut(name).unwrap();
             st.evaluations += 1;
@@ -860,6 +864,20 @@ impl Check {
     }
 }
 
+/// A failure recorded through `ctx.known` is only tolerated when its signature is listed
+/// in known-findings; an unlisted one fails the case (so nothing is silently dropped).
+fn promote_unlisted(r: Outcome, ctx: &CaseCtx, known_sigs: &[String]) -> Outcome {
+    if r.is_err() {
+        return r;
+    }
+    for f in &ctx.known {
+        if !known_sigs.iter().any(|k| sig_matches(k, &f.signature)) {
+            return Err(f.clone());
+        }
+    }
+    r
+}
+
 fn sig_matches(pattern: &str, sig: &str) -> bool {
     // exact match, or prefix match when the pattern ends with '*'
     if let Some(p) = pattern.strip_suffix('*') {
@@ -958,6 +976,7 @@ where
         let shrinking = target_sig.borrow().is_some();
         let mut ctx = CaseCtx::default();
         let r = guarded(|| oracle(&case, &mut ctx));
+        let r = promote_unlisted(r, &ctx, known_sigs);
         if !shrinking {
             let mut st = state.borrow_mut();
             st.evaluations += 1;
@@ -1076,6 +1095,7 @@ impl<C: Debug + Clone + Serialize> Enumerator<C> {
         }
         let mut ctx = CaseCtx::default();
         let r = guarded(|| oracle(case, &mut ctx));
+        let r = promote_unlisted(r, &ctx, &self.known_sigs);
         self.stats.evaluations += 1;
         for c in &ctx.classes {
             *self.stats.classes.entry(c.clone()).or_insert(0) += 1;
